@@ -11,7 +11,8 @@
      g_recv v d   what the reward saver of validator v received in denom d,
      g_paid u v d what was paid to delegator u,
      g_ent u v d  the exact pro-rata entitlement  sum_k reward_k * shares_u(k) / supply(k),
-     g_und r, g_out r  principal undelegated in favour of r / paid out to r by end-blocks.
+     g_und r, g_out r  principal staking unbonded in favour of r (MsgUndelegateResponse.Amount,
+                       which the queue records) / paid out to r by end-blocks.
    eta = 1/(2*10^33) is the relative rounding error of one 34-digit decimal operation,
    kappa = (1+eta)^2 - 1. *)
 From Coq Require Import ZArith QArith List.
@@ -149,13 +150,13 @@ Print Assumptions C10_subsecond_prefix_refuted.
 Theorem C10_finding_max_entries :
   let s0 := exec wD true wV (init ub1000) [(ODelegate 1 0 100 0, orc0); (ODelegate 2 0 300 0, orc0)] in
   let s := set_cell s0 0 (let c := cells s0 0 in mkCell (cT c) (csh c) (cmodsh c) (cB c) (csd c) 7 (cS c) (cM c) (cchk c)) in
-  csh (cells s 0) 2 = 300 /\ is_err (undelegate wD true s orc0 2 0 10 FEE 2) E_MAX_ENTRIES = true.
+  csh (cells s 0) 2 = 300 /\ is_err (undelegate wD true s (orc_ret 10) 2 0 10 FEE 2) E_MAX_ENTRIES = true.
 Proof. exact max_entries_finding. Qed.
 Print Assumptions C10_finding_max_entries.
 
 Theorem C10_finding_zero_cost_undelegate :
   let s := exec wD true wV (init ub1000) [(ODelegate 1 0 3 0, orc0)] in
-  let r := undelegate wD true s orc0 2 0 1 FEE 2 in
+  let r := undelegate wD true s (orc_ret 1) 2 0 1 FEE 2 in
   csh (cells s 0) 2 = 0 /\ k_calc_share (cells s 0) 1 = Ok 0 /\
   obs r (fun s' => cT (cells s' 0)) (-1) = 3 /\ obs r (fun s' => cB (cells s' 0)) None = Some 2 /\
   obs r (fun s' => map u_amt (queue s')) [] = [1].
@@ -167,8 +168,8 @@ Print Assumptions C10_finding_zero_cost_undelegate.
 Definition nv_users : list Z := [1; 2; 3].
 Definition nv_trace : list (op * oracle) :=
   [(ODelegate 1 0 100 0, orc0); (ODelegate 2 0 300 0, orc0); (OEndBlock 1000, orc_rw 40);
-   (OClaim 1 0, orc0); (OUndelegate 2 0 50 0 3, mkOracle 5000 7 (fun _ => 0) (fun _ _ => 0) 0);
-   (OEndBlock 6000, mkOracle 0 7 (fun _ => 0) (fun v d => if (v =? 0) && (d =? 0) then 7 else 0) 50)].
+   (OClaim 1 0, orc0); (OUndelegate 2 0 50 0 3, mkOracle 5000 7 (fun _ => 0) (fun _ _ => 0) 0 50);
+   (OEndBlock 6000, mkOracle 0 7 (fun _ => 0) (fun v d => if (v =? 0) && (d =? 0) then 7 else 0) 50 0)].
 
 Example C10_nonvacuous :
   NoDup wD /\ NoDup nv_users /\ NoDup wV /\ wf_trace nv_users nv_trace /\
